@@ -91,7 +91,7 @@ def queries(ctx):
     qs += _take("C08", r"output_text|syslog_text|bytelen_garbage|bool" if not thorough else r".", ctx, "option")
     qs += _take("C07", r"symbolic" if not thorough else r".", ctx, "chain")
     qs += _take("C06", r"join_NTS_buf(2|7)$" if not thorough else r".", ctx, "cmdline")
-    qs += _take("C12", r"env_all|ds_env$|ds_login|ds_hostname|ds_tty$|ds_cwd" if not thorough else r"^ds_(?!cgroup_3lines)", ctx, "source")
+    qs += _take("C12", r"env_all|ds_env$|ds_login|ds_hostname|ds_tty$|ds_cwd" if not thorough else r"^ds_(?!cgroup_3lines|rpname_depth3)", ctx, "source")
     for bs in ((9, 12, 16) if not thorough else (6, 7, 9, 10, 12, 14, 16, 20)):
         base = [q for q in _mod("C12").queries(ctx) if q.name == "ds_env_all"][0]
         qs.append(dataclasses.replace(base, name="source_env_all_trunc_buf%d" % bs, defines=tuple(base.defines) + ("BUFSZ=%d" % bs,),
